@@ -1,7 +1,7 @@
 #!/bin/sh
 # confirm a seeded change in its scratch worktree: ./lib/confirm_mutant.sh Cxx N
 # 1. patchN alone: whole suite must pass   2. patchN + demoN: suite fails (the demo)   3. demoN alone: suite passes
-ID=$1; N=$2; W=/tmp/mut/$ID; O=/tmp/mut/$ID-out
+ID=$1; N=$2; WAVE=$3; W=/tmp/mut/$ID; O=/tmp/mut/$ID-out$WAVE
 export LD_LIBRARY_PATH=/root/miniconda/lib:$LD_LIBRARY_PATH
 cd $W || exit 2
 git checkout -q -- . && git clean -fdq -e target
